@@ -55,6 +55,7 @@ import (
 	apkfs "chainguard.dev/apko/pkg/apk/fs"
 	"chainguard.dev/apko/pkg/apk/internal/tarfs"
 	"chainguard.dev/apko/pkg/paths"
+	"chainguard.dev/apko/pkg/verifhook"
 
 	"github.com/chainguard-dev/clog"
 )
@@ -976,18 +977,22 @@ func (a *APK) cachePackage(ctx context.Context, pkg InstallablePackage, exp *exp
 	ctlHex := hex.EncodeToString(exp.ControlHash)
 	ctlDst := filepath.Join(cacheDir, ctlHex+".ctl.tar.gz")
 
+	verifhook.Point("pkg.pre-advertise-ctl")
 	if err := paths.AdvertiseCachedFile(exp.ControlFile, ctlDst); err != nil {
 		return nil, err
 	}
+	verifhook.Point("pkg.post-advertise-ctl")
 
 	exp.ControlFile = ctlDst
 
 	if exp.SignatureFile != "" {
 		sigDst := filepath.Join(cacheDir, ctlHex+".sig.tar.gz")
 
+		verifhook.Point("pkg.pre-advertise-sig")
 		if err := paths.AdvertiseCachedFile(exp.SignatureFile, sigDst); err != nil {
 			return nil, err
 		}
+		verifhook.Point("pkg.post-advertise-sig")
 
 		exp.SignatureFile = sigDst
 	}
@@ -995,9 +1000,11 @@ func (a *APK) cachePackage(ctx context.Context, pkg InstallablePackage, exp *exp
 	datHex := hex.EncodeToString(exp.PackageHash)
 	datDst := filepath.Join(cacheDir, datHex+".dat.tar.gz")
 
+	verifhook.Point("pkg.pre-advertise-dat")
 	if err := paths.AdvertiseCachedFile(exp.PackageFile, datDst); err != nil {
 		return nil, err
 	}
+	verifhook.Point("pkg.post-advertise-dat")
 
 	exp.PackageFile = datDst
 
@@ -1007,9 +1014,11 @@ func (a *APK) cachePackage(ctx context.Context, pkg InstallablePackage, exp *exp
 
 	tarDst := strings.TrimSuffix(exp.PackageFile, ".gz")
 
+	verifhook.Point("pkg.pre-advertise-tar")
 	if err := paths.AdvertiseCachedFile(exp.TarFile, tarDst); err != nil {
 		return nil, err
 	}
+	verifhook.Point("pkg.post-advertise-tar")
 
 	exp.TarFile = tarDst
 
